@@ -20,6 +20,8 @@ HARNESSES = {
     # U-PRIMNAMES
     'primnames_table': dict(crate='scale-typegen-description', file='description.rs', complete=True, bound=None, tier='quick',
                             what='primitive_type_description names all 15 primitives as the property states'),
+    'primnames_in_type_name': dict(crate='scale-typegen-description', file='description.rs', complete=True, bound=None, tier='quick',
+                                   what='type_name_with_type_params (Primitive arm) refers to all 15 primitives by the table name'),
     # U-PRIMEX
     **{('primex_' + n): dict(crate='scale-typegen-description', file='scale_value.rs', complete=True, bound=None, tier='quick',
                              what='primitive_type_def_example(%s, any RNG stream) has the right kind and fits the width' % n)
@@ -73,7 +75,7 @@ def run_group(pid, names, tier, repo, verif, build):
             t0 = time.time()
             try:
                 p = subprocess.run(cmd, cwd=repo, env=env, stdout=subprocess.PIPE, stderr=subprocess.STDOUT, text=True,
-                                   timeout=3600 if tier == 'thorough' else 1500)
+                                   timeout=3600 if tier == 'thorough' else 600)
                 out, rc, to = p.stdout, p.returncode, False
             except subprocess.TimeoutExpired as e:
                 out = (e.stdout or b'').decode(errors='replace') if isinstance(e.stdout, bytes) else (e.stdout or '')
